@@ -304,17 +304,35 @@ def run_circuit(case):
 
     # ---- source values the formulations print (select(kind) of the time-domain value) ----
     def source_values():
+        """lsrcV / lsrcI of the model = what Superposition*(self.voc / self.isc).select(.) returns INSIDE the real
+        voltage_equation / current_equation (observed by wrapping select for the duration of the call)"""
+        from lcapy.superposition import Superposition
+        orig = Superposition.select
         for d in elts:
             e = cc.elements[d['name']]
+            if e.type not in ('V', 'I'):
+                continue
+            rec = []
+
+            def spy(self_, k, _rec=rec):
+                r_ = orig(self_, k)
+                _rec.append(r_)
+                return r_
+            Superposition.select = spy
             try:
                 if e.type == 'V':
-                    val = e.cpt.voltage_equation(0, kind)
-                    d['lp']['srcV'] = eval_known(val)
-                elif e.type == 'I':
-                    val = e.cpt.current_equation(0, kind)
-                    d['lp']['srcI'] = eval_known(val)
+                    e.cpt.voltage_equation(0, kind)
+                else:
+                    e.cpt.current_equation(0, kind)
             except Exception as ex:
                 d['lp']['src_error'] = type(ex).__name__
+            finally:
+                Superposition.select = orig
+            if rec:
+                try:
+                    d['lp']['srcV' if e.type == 'V' else 'srcI'] = eval_known(rec[0])
+                except Exception as ex:
+                    d['lp']['src_error'] = type(ex).__name__
 
     def eval_known(val):
         x = sp.sympify(getattr(val, 'sympy', val))
